@@ -337,6 +337,24 @@ def analyse_function(relpath, fn, loader, iterable_params):
                         findings.append(Finding("C44", fn.name, f"factory-object-in-operator/{m.id}",
                                                 f"`{m.id}` ({root.bound.get(m.id)}) is created once per call of {fn.name}(...) and captured by the "
                                                 f"returned operator: every application of that operator object shares it", n.lineno))
+    # a factory without a source parameter (ops.x(args) returns the operator): a closure it defines and hands on (a subject factory,
+    # a mapper wrapper, ...) runs once per application / subscription - if it assigns a variable of the factory, every application
+    # of the operator object and every subscription shares that state (C44)
+    if takes_no_source(fn) and not curried and relpath.startswith("reactivex/operators/"):
+        for sc in all_scopes(root):
+            if sc is root or sc.level in ("sub", "event"):
+                continue
+            nodes = list(own_nodes(sc.node)) if not isinstance(sc.node, ast.Lambda) else list(ast.walk(sc.node.body))
+            for n in nodes:
+                if isinstance(n, (ast.Assign, ast.AugAssign, ast.AnnAssign)):
+                    targets = n.targets if isinstance(n, ast.Assign) else [n.target]
+                    for t in targets:
+                        if isinstance(t, ast.Name) and t.id in sc.nonlocals:
+                            tg = sc.resolve(t.id)
+                            if tg is root:
+                                findings.append(Finding("C44", fn.name, f"closure-writes-factory/{t.id}",
+                                                        f"`{t.id}` (bound in {fn.name}(...), i.e. once per operator object) is assigned by the closure "
+                                                        f"{sc.qual()} that the operator runs later: state leaks between applications / subscriptions", n.lineno))
     uniq = {}
     for f in findings:
         uniq.setdefault((f.prop, f.label), f)
@@ -374,6 +392,8 @@ def target_files(loader):
         if base == "__init__.py" or "/mixins/" in rel:
             continue
         out.append(rel)
+    # the factory functions of the package itself (for_in, concat, catch, ... build their iterables there)
+    out.append("reactivex/__init__.py")
     return out
 
 
@@ -390,6 +410,39 @@ def witness_contract(func):
     return None
 
 
+def reiterable_contract(loader, prop):
+    """`infinite()` is treated as a RE-ITERABLE by the frame conditions (map_indexed & co. build one at application time and iterate it
+    once per subscription).  Contract of the helper behind it (reactivex/internal/utils.py): infinite() returns a new instance of a
+    class whose __iter__ yields a NEW iterator every time with state of its own - a generator function that assigns no attribute of
+    self, on a class that is not its own iterator (no __next__)."""
+    rel = "reactivex/internal/utils.py"
+    tree = loader.load_file(rel).tree
+    out = []
+
+    def rec(name, ok, detail=""):
+        out.append({"id": f"{rel}::infinite/frame-{prop}/{name}", "verdict": "proved" if ok else "refuted", "backend": "frame-analysis", "model": {},
+                    "path": [], "detail": detail, "seconds": 0.0, "kind": "frame"})
+    fn = next((n for n in tree.body if isinstance(n, ast.FunctionDef) and n.name == "infinite"), None)
+    cls = None
+    if fn is not None:
+        rets = [r for r in ast.walk(fn) if isinstance(r, ast.Return)]
+        if len(rets) == 1 and isinstance(rets[0].value, ast.Call) and isinstance(rets[0].value.func, ast.Name):
+            cls = next((n for n in tree.body if isinstance(n, ast.ClassDef) and n.name == rets[0].value.func.id), None)
+    rec("returns-a-new-instance-of-its-helper-class", cls is not None)
+    if cls is None:
+        return out
+    methods = {n.name: n for n in cls.body if isinstance(n, ast.FunctionDef)}
+    it_ = methods.get("__iter__")
+    is_gen = it_ is not None and any(isinstance(n, (ast.Yield, ast.YieldFrom)) for n in ast.walk(it_))
+    writes_self = it_ is not None and any(isinstance(n, (ast.Assign, ast.AugAssign, ast.AnnAssign)) and any(
+        isinstance(t, ast.Attribute) and isinstance(t.value, ast.Name) and t.value.id == "self"
+        for t in (n.targets if isinstance(n, ast.Assign) else [n.target])) for n in ast.walk(it_))
+    rec("every-iteration-gets-an-iterator-with-state-of-its-own", is_gen and not writes_self and "__next__" not in methods,
+        f"__iter__ is a generator function: {is_gen}; assigns attributes of self: {writes_self}; the class is its own iterator (__next__): "
+        f"{'__next__' in methods} - overlapping subscriptions would share one position")
+    return out
+
+
 def run_unit(desc):
     t0 = time.time()
     loader = Loader()
@@ -397,6 +450,7 @@ def run_unit(desc):
     table = iterable_param_table(loader)
     results = []
     functions = {}
+    results.extend(reiterable_contract(loader, prop))
     for rel in target_files(loader):
         m = loader.load_file(rel)
         for st in m.tree.body:
